@@ -75,6 +75,10 @@ def covers(primal_deps, item, prov=None):
     # reading the whole attribute in the primal covers every slice of it
     if item in primal_deps or (a, None) in primal_deps:
         return True
+    # the derivative takes the whole attribute (e.g. into a local that is sliced later): which part it uses is not known here,
+    # so it is covered as soon as the primal reads some part of that attribute (no verdict rather than a guess)
+    if sub is None and any(b == a for (b, _) in primal_deps):
+        return True
     # two attributes that are both SNAPSHOTS (copies made in the constructor) of the same constructor parameters hold the same
     # data for the life of the object; a plain reference to the caller's object (self.X = X) does not: the caller can change it
     if prov and a in prov and prov[a][1] == "snapshot":
